@@ -1036,7 +1036,7 @@ def run(ck: Check):
     depth2 = list(itertools.product(alphabet, repeat=2))
     if not ck.thorough():
         rng.shuffle(depth2)
-        depth2 = depth2[:150]
+        depth2 = depth2[:100]
     for a, b in depth2:
         handle([dict(a), dict(b)], "exhaustive-small/len2", small=True)
         if not ck.thorough() and ck_time(ck) > 85:
